@@ -496,6 +496,17 @@ def check_case(case):
                         bad("baf:call", f"do_call baf[{i}] = {float(res['baf'].iat[i])!r} for segment {seg.chromosome.iat[i]}:{seg.start.iat[i]}, "
                                         f"expected {w!r} (purity {case['purity']})")
                         break
+                # command-line tier (a quarter of the cases, selectors by name): `cnvkit.py call -v ...` on the written
+                # segments and the same VCF = load_het_snps + do_call on the same files
+                if gen.pick(case, "cli", 4) == 0 and not out and not isinstance(case["sample_id"], int) \
+                        and not isinstance(case["normal_id"], int):
+                    from vk import cli
+
+                    diff = cli.call_diff(seg, d, "none", 2, case["purity"], False, None, None, None, None, vcf=path,
+                                         sample_id=case["sample_id"], normal_id=case["normal_id"],
+                                         min_variant_depth=case["het_min_depth"], zygosity_freq=case["zyg_freq"])
+                    if diff:
+                        bad("cli:call-vcf", diff)
     finally:
         shutil.rmtree(d, ignore_errors=True)
     return out
